@@ -78,11 +78,38 @@ func c17dCached(w *dworld) string {
 	return ""
 }
 
+// (see the composite unit: faults by request identity, with the errors a loaded API server sheds requests with)
+var c17FaultID, c17FaultKind string
+var c17Idents []string
+
+func c17Fault(kind string) *sim.Fault {
+	switch kind {
+	case "429":
+		return &sim.Fault{Code: 429, Reason: "TooManyRequests"}
+	case "server-timeout":
+		return &sim.Fault{Code: 504, Reason: "Timeout"}
+	case "403":
+		return &sim.Fault{Code: 403, Reason: "Forbidden"}
+	case "timeout":
+		return &sim.Fault{Transport: true}
+	}
+	return &sim.Fault{Code: 500, Reason: "InternalError"}
+}
+
 func c17dHistory(w *dworld, steps []string, faultAt int, bad func(key, msg string)) int {
 	count := 0
+	seen := map[string]int{}
 	w.Sim.Plan = func(q *sim.Request) *sim.Fault {
 		count++
-		if count-1 == faultAt {
+		seen[q.Ident()]++
+		id := fmt.Sprintf("%s#%d", q.Ident(), seen[q.Ident()])
+		if faultAt == -1 {
+			c17Idents = append(c17Idents, id)
+		}
+		if faultAt == -2 && id == c17FaultID {
+			return c17Fault(c17FaultKind)
+		}
+		if faultAt >= 0 && count-1 == faultAt {
 			return &sim.Fault{Code: 500, Reason: "InternalError"}
 		}
 		return nil
@@ -159,7 +186,32 @@ func TestVerifC17(t *testing.T) {
 						continue
 					}
 					cfg := c17dCfg{Customize: cust, Finalize: fin, Method: method, Verbose: verbose, Bare: vb == 2}
+					c17Idents = nil
 					total := c17dHistory(c17dBuild(cfg), steps, -1, nil)
+					idents := map[string]bool{}
+					for _, id := range c17Idents {
+						idents[id] = true
+					}
+					for _, id := range mc.SortedKeys(idents) {
+						for _, kind := range []string{"429", "server-timeout", "timeout", "403"} {
+							if kind == "403" && !mc.Thorough() {
+								continue
+							}
+							fid, fk := id, kind
+							dev := kit.M{"cfg": fmt.Sprintf("%+v", cfg), "fault": fk, "at": fid}
+							if !mc.MineKey(kit.JSON(dev)) {
+								continue
+							}
+							r.Case(dev, kit.JSON(dev), func() []mc.Finding {
+								var f []mc.Finding
+								c17FaultID, c17FaultKind = fid, fk
+								c17dHistory(c17dBuild(cfg), steps, -2, func(key, msg string) {
+									f = append(f, mc.Finding{Key: "C17:decorator:" + key, Msg: fmt.Sprintf("%+v %s at %s: %s", cfg, fk, fid, msg)})
+								})
+								return f
+							})
+						}
+					}
 					for fault := -1; fault < total; fault++ {
 						idx++
 						if !mc.Mine(idx) {
